@@ -316,6 +316,11 @@ class CallMixin:
                 return self.new_list(PyListP([]))
         raise Unsupported(f"builtin {name}")
 
+    def regex_opted_in(self, ref, fr):
+        c = getattr(fr, "contract", None)
+        names = ((c.ghost or {}).get("regex_model") or []) if c is not None else []
+        return ref.rsplit(".", 1)[-1] in names
+
     def len_special(self, a, node, fr):
         if isinstance(a, VObj) and a.cls == "<opaque>":
             ln = z3.Int(f"len({a.ref})")
@@ -409,11 +414,43 @@ class CallMixin:
             m = VObj(self.new_ref("match"), "<match>")
             self.ghost[("match", m.ref)] = r
             return VOpt(z3.Not(found), m)
+        if isinstance(recv, VObj) and recv.cls == "<opaque>" and recv.ref.startswith("global:") and name in ("search", "match", "fullmatch") \
+                and len(args) == 1 and isinstance(args[0], VStr) and self.regex_opted_in(recv.ref, fr):
+            # structural model of a compiled pattern of the package (vf/regexmodel.py): None, or a match at 0 whose text is
+            # in the pattern's language; only necessary conditions of a match are assumed
+            from . import regexmodel as RX
+
+            rx = RX.native_pattern(recv.ref[len("global:"):])
+            if rx is not None:
+                mdl = RX.Model(rx, args[0], full=(name == "fullmatch"))
+                if mdl.anchored or name != "search":
+                    isnone = fresh("rx_none", "bool")
+                    self.assume_axiom(z3.Implies(z3.Not(isnone), z3.And(mdl.constraints)))
+                    m = VObj(self.new_ref("match"), "<match>")
+                    self.ghost[("match", m.ref)] = z3.IntVal(0)
+                    self.ghost[("rmatch", m.ref)] = mdl
+                    self.assumption_log.add(f"re: {recv.ref[len('global:'):]}.{name}(s) returns None or a match at 0 whose text is in the language of "
+                                            f"{rx.pattern!r} (flags {int(rx.flags)}; {'structure' if mdl.structural else 'width bounds only'})")
+                    return VOpt(isnone, m)
         if isinstance(recv, VOpt) and isinstance(recv.some, VObj) and recv.some.cls == "<match>":
             self.safe_or_raise(z3.Not(recv.isnone), "AttributeError", node, fr, "call")
             recv = recv.some
         if isinstance(recv, VObj) and recv.cls == "<match>" and name == "start" and not args:
             return VInt(self.ghost[("match", recv.ref)])
+        if isinstance(recv, VObj) and recv.cls == "<match>" and ("rmatch", recv.ref) in self.ghost and name in ("group", "end", "start") and len(args) <= 1:
+            mdl = self.ghost[("rmatch", recv.ref)]
+            g = 0
+            if args:
+                gv = z3.simplify(self.as_int(args[0]))
+                if not z3.is_int_value(gv):
+                    raise Unsupported("match.group with a symbolic index")
+                g = gv.as_long()
+            if g not in mdl.groups:
+                raise Unsupported(f"group {g} of {mdl.rx.pattern!r} is not modelled")
+            lo, hi = mdl.groups[g]
+            if name == "group":
+                return str_slice(mdl.s, lo, hi)
+            return VInt(lo if name == "start" else hi)
         if isinstance(recv, VOpt) and isinstance(recv.some, VObj):
             self.safe_or_raise(z3.Not(recv.isnone), "AttributeError", node, fr, "call")
             recv = recv.some
@@ -567,8 +604,22 @@ class CallMixin:
             r = self.apply_strfun(f"str.{name}", [VAtom(z3.IntVal(intern_atom(repr(s)))), *[a for a in args if hasattr(a, "t")]])
             if name in ("strip", "lstrip", "rstrip"):
                 self.assume_axiom(r.b <= s.length())
-            if name in ("lower", "upper") and s.kind == "chr":
-                pass
+            if name in ("lower", "upper") and (s.kind == "chr" or (s.kind == "sub" and z3.is_int_value(z3.simplify(s.length())) and z3.simplify(s.length()).as_long() == 1)):
+                # one character: exact on ASCII; a non-ASCII character never maps to a single ASCII character except for the
+                # enumerated exceptions (str.lower: U+212A KELVIN SIGN -> 'k'; str.upper: U+0131 -> 'I', U+017F -> 'S')
+                c = s.char(z3.IntVal(0))
+                key = ("casemodel", name, str(z3.simplify(c)))
+                if key not in self.unfolded:
+                    self.unfolded.add(key)
+                    r0 = r.char(z3.IntVal(0))
+                    if name == "lower":
+                        asc = z3.If(z3.And(c >= 65, c <= 90), c + 32, c)
+                    else:
+                        asc = z3.If(z3.And(c >= 97, c <= 122), c - 32, c)
+                    exc = case_exceptions(name)
+                    self.assume_axiom(z3.Implies(z3.And(c >= 0, c < 128), z3.And(r.b == 1, r0 == asc)))
+                    self.assume_axiom(z3.Implies(z3.And(c >= 128, r.b == 1), z3.Or([r0 >= 128] + [z3.And(c == a, r0 == b) for a, b in exc.items()])))
+                    self.assume_axiom(r.b >= 1)
             return r
         if name in ("isdigit", "isspace", "isalpha", "isalnum") and s.kind == "chr":
             # Unicode-aware character classes: uninterpreted predicates with the facts that matter - they contain the
@@ -810,6 +861,22 @@ class CallMixin:
             return result
         finally:
             self.old_state = saved_old
+
+
+_CASE_EXC: dict = {}
+
+
+def case_exceptions(name):
+    """non-ASCII code points whose str.lower()/str.upper() is a single ASCII character (complete enumeration on this interpreter)"""
+    if name not in _CASE_EXC:
+        f = str.lower if name == "lower" else str.upper
+        out = {}
+        for cp in range(128, 0x110000):
+            r = f(chr(cp))
+            if len(r) == 1 and ord(r) < 128:
+                out[cp] = ord(r)
+        _CASE_EXC[name] = out
+    return _CASE_EXC[name]
 
 
 OPAQUE_PURE_METHODS = {"search", "match", "fullmatch", "group", "start", "end", "get", "lower", "upper", "strip", "sub", "append", "pop", "setdefault"}
